@@ -3,6 +3,7 @@
 #include "refidna.h"
 
 #include <algorithm>
+#include <atomic>
 #include <cstdio>
 #include <cstdlib>
 #include <cstring>
@@ -36,11 +37,11 @@ struct Tables {
 };
 
 std::mutex g_load_mutex;
-const Tables* g_tables = nullptr;  // set once, never freed
+std::atomic<const Tables*> g_tables{nullptr};  // set once, never freed
 const std::u32string g_empty;
 
 inline const Tables& T() {
-  const Tables* t = g_tables;
+  const Tables* t = g_tables.load(std::memory_order_acquire);
   if (!t) {
     std::fprintf(stderr, "ref::idna: load_tables() has not been called\n");
     std::abort();
@@ -267,16 +268,15 @@ inline bool starts_with_xn(const std::u32string& s) {
 // =================================================================================================
 bool load_tables(const std::string& data_dir, std::string* err) {
   std::lock_guard<std::mutex> lock(g_load_mutex);
-  if (g_tables) return true;
+  if (g_tables.load(std::memory_order_acquire)) return true;
   auto t = std::make_unique<Tables>();
   if (!load_impl(data_dir, *t, err)) return false;
-  g_tables = t.release();
+  g_tables.store(t.release(), std::memory_order_release);
   return true;
 }
 
 bool tables_loaded() {
-  std::lock_guard<std::mutex> lock(g_load_mutex);
-  return g_tables != nullptr;
+  return g_tables.load(std::memory_order_acquire) != nullptr;
 }
 
 Status status_of(char32_t cp) {
